@@ -11,6 +11,7 @@ package main
 import (
 	"fmt"
 	"strings"
+	"testing/fstest"
 
 	goat "github.com/philhassey/goatlang"
 )
@@ -416,7 +417,43 @@ func prefixComma(a []string) string {
 	return ", " + strings.Join(a, ", ")
 }
 
+// c09Redefined: a function declared again on the same VM is called by its NEW signature: fixed parameters become a
+// variadic tail and back, the element type of the tail changes (the arguments are packed and converted as the new
+// declaration says)
+func (c *Ctx) c09Redefined() {
+	type step struct{ src, want string }
+	for _, hist := range [][]step{
+		{{"func f(a int, b int) int { return a*100 + b }; v := f(1, 2); v", "102"},
+			{"func f(a int, rest ...int) int {\n\ts := a*100 + len(rest)*10\n\tfor _, x := range rest {\n\t\ts += x\n\t}\n\treturn s\n}\nv := f(1, 2); v", "112"},
+			{"v := f(1, 2, 3, 4); v", "139"}, {"v := f(7); v", "700"},
+			{"func f(a int, b int) int { return a - b }; v := f(9, 2); v", "7"}, {"v := f(1, 2, 3); v", "ERR"}},
+		{{"func half(xs ...int) int { return xs[0] / 2 }; v := half(3); v", "1"}, {"func half(xs ...float64) float64 { return xs[0] / 2 }; v := half(3); v", "1.5"},
+			{"func half(xs ...uint8) uint8 { return xs[0] + xs[1] }; v := half(200, 100); v", "44"}, {"func half(x float64) float64 { return x / 4 }; v := half(3); v", "0.75"}},
+		{{"type T struct {\n\tn int\n}\nfunc (t *T) m(a int) int { return t.n + a }\nt := &T{n: 5}\nv := t.m(1); v", "6"},
+			{"func (t *T) m(a int, more ...int) int { return t.n + a + len(more)*10 }\nv := t.m(1, 2, 3); v", "26"}, {"v := t.m(1); v", "6"}},
+	} {
+		vm := goat.New()
+		for i, st := range hist {
+			rets, err := vm.Eval(fstest.MapFS{}, "main", st.src)
+			got := "ERR"
+			if err == nil && len(rets) == 1 {
+				got = rets[0].String()
+			}
+			c.Rep.Oracle["redefined-signature"]++
+			if got != st.want {
+				var text []string
+				for _, h := range hist[:i+1] {
+					text = append(text, h.src)
+				}
+				c.Rep.Violate(Violation{Kind: "oracle", Cut: "redefined-signature", Input: strings.Join(text, "\n// next Eval on the same VM\n"), Impl: fmt.Sprint(got, " ", err), Oracle: st.want})
+				break
+			}
+		}
+	}
+}
+
 func runC09(c *Ctx) error {
+	c.c09Redefined()
 	// handwritten programs (shapes that once slipped through), run by the Go toolchain
 	if err := c.runCorpus("C09-programs"); err != nil {
 		return err
